@@ -3,4 +3,6 @@ namespace Ohkami.Gen
 def BUF_SIZE : Nat := 1024
 def PAYLOAD_LIMIT : Nat := 4294967296
 def PARAMS_LIMIT : Nat := 2
+/-- `Request::read` refuses an announced length of PAYLOAD_LIMIT or more (413) before it loads any of the body, wherever the body bytes are -/
+def limitCheckedBeforeLoading : Bool := true
 end Ohkami.Gen
